@@ -51,3 +51,19 @@ Lemma f_cancel_done_mono s : fdone s = true -> fst (f_cancel s) = s.
 Proof. destruct s; simpl; congruence. Qed.
 Lemma f_cancel_done s : fdone s = true -> fdone (fst (f_cancel s)) = true.
 Proof. destruct s; simpl; congruence. Qed.
+
+(* ---- protocol facts of the stdlib Future used by C02 / C06 ------------------------------------ *)
+(* a cancelled future can never be started or given an outcome any more *)
+Lemma cancelled_never_runs s : fcancelled s = true ->
+  f_set s = None /\ (forall n b, f_srnc s = Some (n, b) -> b = false /\ fcancelled n = true) /\ fst (f_cancel s) = s.
+Proof. destruct s; simpl; intros H; try discriminate; repeat split; intros; try congruence; inversion H0; subst; auto. Qed.
+(* a finished future refuses cancel() and keeps its state *)
+Lemma finished_refuses_cancel : f_cancel Finished = (Finished, false) /\ f_set Finished = None /\ f_srnc Finished = None.
+Proof. repeat split. Qed.
+(* a running future refuses cancel() and can still finish normally *)
+Lemma running_refuses_cancel : f_cancel Running = (Running, false) /\ f_set Running = Some Finished.
+Proof. split; reflexivity. Qed.
+(* every method keeps a done future done *)
+Lemma done_is_stable s : fdone s = true ->
+  fdone (fst (f_cancel s)) = true /\ (forall n b, f_srnc s = Some (n, b) -> fdone n = true) /\ f_set s = None.
+Proof. destruct s; simpl; intros H; try discriminate; repeat split; intros; try congruence; inversion H0; subst; auto. Qed.
